@@ -18,6 +18,9 @@ func c10Applies(cfg *SrvCfg) bool {
 }
 
 func judgeC10Script(c *SrvCase, obs *SrvObs, o *Outcome) {
+	// credentials the peer pipelined in cleartext behind its choice of tls were never sent under TLS: accepting them is
+	// accepting credentials over cleartext, whatever the transport reports by the time the callback runs
+	judgeGluedCleartext(c, obs, o, "C10/cleartext-credentials-accepted")
 	for _, e := range obs.Log {
 		if e.Call == "auth" && e.Enc != "tls" {
 			o.Fail("C10/auth-callback-in-cleartext", "Authenticate ran for scheme %q while the server transport encryption was %q (configured %v)", e.Scheme, e.Enc, c.Cfg.Enc)
@@ -73,6 +76,27 @@ func TestC10Enum(t *testing.T) {
 						}
 						rec.Eval(c, o)
 					})
+				}
+				// a pipelining peer: each authenticating symbol in cleartext in the same write as the choice of tls
+				first := CSym{Kind: "session", State: "new", ID: "none", From: peerFrom}
+				choice := CSym{Kind: "session", State: "negotiating", ID: "sid", Comp: "none", Enc: "tls", DoTLS: true, From: peerFrom}
+				for _, x := range alpha {
+					if !(x.Kind == "session" && x.State == "authenticating" && x.ID == "sid" && decodableSym(&x)) {
+						continue
+					}
+					idx++
+					if idx%nsh != sh {
+						continue
+					}
+					x.Glued = true
+					c := &SrvCase{Cfg: cfg, Script: []CSym{first, choice, x}, End: "eof"}
+					o := &Outcome{NonTrivial: true}
+					o.Class("mode=" + mode)
+					var obs *SrvObs
+					rec.Journal(c)
+					synctest.Test(t, func(t *testing.T) { obs = RunServerScript(c) })
+					judgeC10Script(c, obs, o)
+					rec.Eval(c, o)
 				}
 			}
 		}
